@@ -21,6 +21,7 @@ EXPLANATION = (
     "re-raise inside `except ValueError`) and no handler between a validation site and the API boundary swallows it; (R4) the boolean validator behind every conservation "
     "site examines every node having both incoming and outgoing edges (no other exemption), compares the complete in-sum with the complete out-sum and answers True only after the last node; (R3, advisory) "
     " (R5) the construction-time edge queries keyed by the synthetic source / sink are guarded by node membership, so the no-source / no-sink ValueError cannot be bypassed by one-character node names. "
+    " (R6) range checks are NaN-proof (evaluated with every ordering comparison False they still raise), the greedy route is left before paths[0] is read when the greedy decomposition is empty, the node-mode constraint translator rejects empty constraints and type-checks every element, and equality rows convert caller data to Python numbers; (R4, extended) the conservation verdict may be `not math.isclose(in, out)` with tolerances <= 1e-6. "
     "reads of loop variables after a possibly empty loop are listed as notes.  NOT decided: the converse (every well-formed input is accepted)."
 )
 DECIDED = ["each documented domain violation has a ValueError rejection on every completing path", "delegated checks are always invoked",
